@@ -73,6 +73,7 @@ def run(ctx):
     for c in cfgs:
         c["depth"] = depth_for(c, ctx.tier)
     run_rot(ctx, exe, cfgs, "c14", "rot(c14)")
+    ctx.distinct.update(range(int(ctx.stats.get("states", 0))))
     ctx.assumptions.append("the reference follows quill where the property is silent: an empty file is never rotated; a write-mode restart starts a new epoch whose leftovers are unconstrained")
     ctx.assumptions.append("scratch directory on tmpfs; timestamps supplied by the harness")
 
